@@ -171,3 +171,40 @@ def run(ctx):
                 want = None
             if p.parse.fields[0][0] != want:
                 ctx.violation("kind-dispatch", dict(document=short(d, 300)), want, p.parse.fields[0][0])
+
+    # the command-line route: `sign transaction` (file and stdin, full and signature-only) and `hash transaction` print exactly
+    # the bytes / digest / signature determined by the document and the selected account (independent RFC 6979 + encoder)
+    import os
+    import tempfile
+    from common import CACHE
+    phrase = "test test test test test test test test test test test junk"
+    seed = pyref.bip39_seed(phrase, "")
+    tmp = tempfile.mkdtemp(prefix="c06-", dir=CACHE)
+    runs, meta = [], []
+    for i in range(12 if not thorough else 60):
+        t = txgen.rand_tx(rng, kind=i % 3, small=(i % 2 == 0))
+        if t.kind == 0 and t.f.get("chainId") is None:
+            t.f["chainId"] = rng.choice([1, 5, 137, 1 << 40])
+        d = txgen.render(rng, t)
+        acct = rng.randrange(3)
+        key = pyref.bip32_derive(seed, [0x8000002C, 0x8000003C, 0x80000000, 0, acct])
+        rr, ss, pp = pyref.ecdsa_sign_rfc6979(key, t.signing_hash())
+        pth = os.path.join(tmp, "t%d.json" % i)
+        open(pth, "w").write(d)
+        base = ["sign", "--mnemonic", phrase, "--account-index", str(acct), "transaction"]
+        for args, stdin, want in ((base + [pth], None, "0x" + t.encode((rr, ss, pp)).hex()), (base + ["-"], d.encode(), "0x" + t.encode((rr, ss, pp)).hex()),
+                                  (base + ["--signature-only", pth], None, "0x%064x%064x%02x" % (rr, ss, 27 + pp)),
+                                  (["hash", "transaction", pth], None, "0x" + t.signing_hash().hex()),
+                                  (["hash", "transaction", "-"], d.encode(), "0x" + t.signing_hash().hex())):
+            runs.append(dict(args=args, stdin=stdin))
+            meta.append((d, want))
+    for rn, (d, want), r in zip(runs, meta, ctx.cli(runs)):
+        ctx.count("cli/" + rn["args"][0] + "-transaction")
+        ctx.distinct(("cli", tuple(rn["args"][:6]), d))
+        if r.cls != "ok" or r.stdout.decode().strip() != want:
+            ctx.violation("cli-exact-output", dict(op="hdwallet " + " ".join(short(a, 40) for a in rn["args"] if a != phrase), document=short(d, 300)),
+                          short(want, 200), str(r)[:300])
+    for f in os.listdir(tmp):
+        os.remove(os.path.join(tmp, f))
+    os.rmdir(tmp)
+
